@@ -122,9 +122,9 @@ def readFramesAtTimes(
         0.0, duration, keepIntervals, deleteIntervals
     )
 
-    if markedIntervals[-1][1] > duration:
+    if markedIntervals[0][0] < 0 or markedIntervals[-1][1] > duration:
         raise errors.ArgumentError(
-            "Timestamps in keepIntervals and deleteIntervals cannot exceed wav file duration"
+            "Timestamps in keepIntervals and deleteIntervals must lie between 0 and the wav file duration"
         )
 
     # Grab the sections to be kept
